@@ -452,6 +452,10 @@ def rules(ctx):
     r4_terms(ctx)
     r5_individual(ctx)
     r5b_no_cross_individual_weights(ctx)
+    # "kept exactly when u < exp(-D)": a rejected proposal is really gone only if the write of the proposal did not rewrite, in place, the tensor
+    # the snapshot was (or will be) taken from - State.put is out-of-place (same rule as C01.R4a / C02.R6)
+    from .c01 import state_put_out_of_place
+    state_put_out_of_place(ctx, rid="C03.R6", why="the snapshot a rejection restores is taken from (or shares) that tensor: the rejected proposal is kept although u >= exp(-D)")
     ctx.trust("torch.exp / torch.rand / torch.randn semantics; sympy expand")
 
 
